@@ -14,7 +14,7 @@ tvars == <<mpc, control, latch, mutex, th, nextSlot, outstanding, hashZero, cras
 Rec == ndJsonDeserialize(IOEnv.TRACE)
 N == Len(Rec)
 
-SlotOf(id) == ((id - 1) % 2) + 1
+SlotOf(id) == ((id - 1) % 3) + 1
 Matches(lb, e) ==
     IF e.k = "S" THEN lb = <<"S", SlotOf(e.id), e.w>>
     ELSE IF e.w = "setoption" THEN lb \in {<<"M", "setoption">>, <<"M", "sethash">>, <<"M", "sethash0">>}
